@@ -41,7 +41,7 @@ IK4_CODES = AK4_CODES | {'12', '13', 'I10', 'I11', 'I12', 'I13', 'I6', 'I9'}
 def tier_config(tier):
     if tier == 'thorough':
         return {'runs': 30000, 'wall': 820, 'det_probe': 4}
-    return {'runs': 800, 'wall': 110, 'det_probe': 3}
+    return {'runs': 3000, 'wall': 150, 'det_probe': 3}
 
 
 def pick_delims(rng, doc, icvn):
